@@ -553,7 +553,15 @@ def site_pair(tid, spec, rng, pol, site=None):
     names = rng.sample(sites.NAMES, n)
     hero = rng.randrange(n)
     h = sites.Hand({'final_stacks': list(stA.stacks)}, ops, n, [int(x) for x in stA.starting_stacks], seats, names, hero)
+    if n >= 3 and site != 'ipoker' and rng.random() < 0.2:
+        # dead button (iPoker marks the dealer on a player line: not expressible there): the button is on an empty seat between the last player and the small blind
+        last, first = seats[n - 1], seats[0]
+        between = [x for x in range(1, 10) if x not in seats and ((last < x < first) if last < first else (x > last or x < first))]
+        if between:
+            h.button_seat = rng.choice(between)
+    sites.Fmt.commas = site != 'pokerstars' and rng.random() < 0.5
     text = sites.RENDER[site](h)
+    sites.Fmt.commas = False
     flags = []
     recB = recA
     parsed = False
@@ -562,7 +570,7 @@ def site_pair(tid, spec, rng, pol, site=None):
             warnings.simplefilter('always')
             hands = list(getattr(HandHistory, sites.IMPORT[site])(text))
         reports = [str(w.message) for w in caught if 'Unable to parse' in str(w.message)]
-        flags.append([f'{site}: the log is imported as exactly one hand (reports: {reports[:1]})', len(hands) == 1 and not reports])
+        flags.append([f'{site}: the log is imported as exactly one hand, nothing reported unparsable', len(hands) == 1 and not reports])
         if len(hands) == 1:
             hh = hands[0]
             flags.append([f'{site}: players in position order', list(hh.players or []) == names])
